@@ -3,7 +3,7 @@
 diff=$1; shift
 cd /repo || exit 3
 if ! git diff --quiet; then echo "/repo is dirty"; exit 3; fi
-git apply "$diff" || { echo "patch does not apply"; exit 3; }
+git apply "$(cd /verif; realpath "$diff")" 2>/dev/null || git apply "$diff" || { echo "patch does not apply"; exit 3; }
 trap 'git -C /repo checkout -- . ; git -C /repo clean -fdq src tests 2>/dev/null' EXIT
 cd /verif
 for id in "$@"; do
